@@ -229,7 +229,8 @@ type exec struct {
 	opIdx    int
 
 	// observations from passive hooks (under mu)
-	enq        map[enqKey]bool
+	enq        map[enqKey]int  // hand-overs to a shard per (ref, timestamp, kind)
+	wrote      map[enqKey]int  // Must items written per (ref, timestamp, kind): one commit may log two samples of one series at one timestamp
 	ageOK      map[string]bool // "class@T" of samples the queue dropped as too old, validated
 	ageByRef   map[enqKey]bool
 	ageRetry   int64
@@ -284,7 +285,7 @@ func (e *exec) onEvent(name string, kv ...any) {
 		st := kv[2].(int) // seriesType: 0 sample 1 exemplar 2 histogram 3 float histogram
 		kind := []int{rwmodel.Float, rwmodel.Exemplar, rwmodel.Hist, rwmodel.FHist}[st]
 		e.mu.Lock()
-		e.enq[enqKey{kv[0].(uint64), kv[1].(int64), kind}] = true
+		e.enq[enqKey{kv[0].(uint64), kv[1].(int64), kind}]++
 		e.mu.Unlock()
 	case "shards.enqueue.softShutdown":
 		e.count("enqueue_refused_soft_shutdown", 1)
@@ -686,6 +687,7 @@ func (e *exec) doCommit(o Op) {
 		switch p.it.Req {
 		case rwmodel.Must:
 			e.pending = append(e.pending, outItem{p.st.key, p.it, uint64(p.st.ref)})
+			e.wrote[enqKey{uint64(p.st.ref), p.it.T, p.it.Kind}]++
 		case rwmodel.May:
 			e.pendingMay = append(e.pendingMay, outItem{p.st.key, p.it, uint64(p.st.ref)})
 		}
@@ -848,7 +850,7 @@ func (e *exec) allOutstandingEnqueued() bool {
 	e.mu.Lock()
 	defer e.mu.Unlock()
 	for _, p := range items {
-		if !e.enq[enqKey{p.ref, p.it.T, p.it.Kind}] {
+		if k := (enqKey{p.ref, p.it.T, p.it.Kind}); e.enq[k] < e.wrote[k] {
 			return false
 		}
 	}
@@ -963,7 +965,7 @@ func Execute(t *testing.T, prop string, plan *Plan) (res *runner.Result) {
 	res = &runner.Result{Counters: map[string]int64{}}
 	e := &exec{t: t, prop: prop, plan: plan, cfg: plan.Cfg, res: res,
 		names: map[uint64]string{}, shardGen: map[int]int{}, queueName: map[any]string{}, flushGen: map[string]int{},
-		counters: map[string]int64{}, byRef: map[uint64]*serState{}, refOf: map[string]uint64{}, enq: map[enqKey]bool{}, rebuilt: map[string]bool{}, selCtr: map[string]uint64{}, ageOK: map[string]bool{}, ageByRef: map[enqKey]bool{},
+		counters: map[string]int64{}, byRef: map[uint64]*serState{}, refOf: map[string]uint64{}, enq: map[enqKey]int{}, wrote: map[enqKey]int{}, rebuilt: map[string]bool{}, selCtr: map[string]uint64{}, ageOK: map[string]bool{}, ageByRef: map[enqKey]bool{},
 		doneCh: make(chan struct{}), reg: &keepReg{}, model: rwmodel.New()}
 	e.epochMs = e.nowMs()
 	e.root = filepath.Join(scratchRoot(), fmt.Sprintf("rw%x", plan.Cfg.Seed))
